@@ -331,6 +331,23 @@ def run(ctx):
                         tovec = len(calls) == 1 and re.search(r"slice::<impl \[T\]>::to_vec$|to_owned$", calls[0]) is not None
                 ok = is_map and tovec and src is not None and src[3] == ("site", last)
                 why = "username = %s ; last parsed response at bb%d ; closure copies=%s" % (term_str(uname)[:120], last, tovec)
+                if not ok and uname[0] == "agg" and (uname[2] or "").endswith("option::Option"):
+                    # the same written as (or expanded to) a match: Some(u) => Some(u.to_vec()), None => None
+                    def from_last(x):
+                        c = T.find(x, lambda y: T.is_call(y, r"^commands::client_handshake$"))
+                        return T.is_field(T.peel(x), "username") and c is not None and c[3] == ("site", last)
+                    if uname[3] == "Some" and len(uname[4]) == 1:
+                        cp_ = uname[4][0]
+                        ok = T.is_call(cp_, r"slice::<impl \[T\]>::to_vec$|to_owned$|Vec<T>>::from$") and len(cp_[2]) == 1 and \
+                            isinstance(T.peel(cp_[2][0], payloads=False), tuple) and T.peel(cp_[2][0], payloads=False)[0] == "somepayload" and from_last(T.peel(cp_[2][0], payloads=False)[1])
+                    elif uname[3] == "None":
+                        for i_, blk_ in enumerate(p.blocks[:pos]):
+                            tt_ = fi.term(blk_)
+                            if tt_["k"] == "switch":
+                                dv_ = p.origin_op(tt_["discr"], i_)
+                                if isinstance(dv_, tuple) and dv_[0] == "discr" and from_last(dv_[1]):
+                                    taken = [x for x, g in zip(tt_["vals"], tt_["tgts"]) if g == p.blocks[i_ + 1]]
+                                    ok = taken == ["0"] or (not taken and "0" not in tt_["vals"])
             ctx.ob("C11.username-flow", ok, "the user name handed to after_authentication is not a copy of the last handshake response's user name: " + why, fn=fi.path,
                    construct="username", where=fi.where(bb), sample={"rule": "username-flow", "config": cfg, "responses_parsed": len(parses)} if n < 4 else None)
             # a client that requested SSL must not reach the shim without a TLS switch
